@@ -243,7 +243,9 @@ def parseOp (line : String) : Option Op :=
   | ["bufna", fr, ch] => do some (.buf (← iOf fr) (← iOf ch) none false .none)
   | "balloc" :: u :: r => do some (.balloc (← hOf 'u' u) (← complOnly r))
   | "bufcons" :: n :: fr :: ch :: r => do
-    some (.bufcons (← iOf n) (← iOf fr) (← iOf ch) (← complOnly r))
+    some (.bufcons (← iOf n) (← iOf fr) (← iOf ch) none (← complOnly r))
+  | "bufconsx" :: n :: fr :: ch :: num :: r => do
+    some (.bufcons (← iOf n) (← iOf fr) (← iOf ch) (some (← iOf num)) (← complOnly r))
   | "bfree" :: u :: r => do some (.bfree (← hOf 'u' u) (← complOnly r))
   | ["bfreeall"] => some .bfreeall
   | "bzero" :: u :: r => do some (.bzero (← hOf 'u' u) (← complOnly r))
@@ -282,7 +284,7 @@ def parseOp (line : String) : Option Op :=
 
 def bufAllocOp (line : String) : Bool :=
   match (line.trimAscii.toString.splitOn " ").filter (· ≠ "") with
-  | w :: _ => ["buf", "bufx", "bufna", "bufcons", "bfree", "bfreeall"].contains w
+  | w :: _ => ["buf", "bufx", "bufna", "bufcons", "bufconsx", "bfree", "bfreeall"].contains w
   | [] => false
 
 def blocksStr (cl : Client) : String :=
